@@ -53,7 +53,7 @@ pub trait InterpreterTrait {
 
     fn register_stack(&mut self) -> &mut RegisterStack;
 
-    fn by_ref_stack(&mut self) -> &mut VecDeque<Variant>;
+    fn by_ref_stack(&mut self) -> &mut VecDeque<(Variant, Option<Path>)>;
 
     fn take_function_result(&mut self) -> Option<Variant>;
 
